@@ -48,6 +48,15 @@ def build_message(rng, kind, target, inner):
         return H(b'Content-Length: %d\r\nContent-Length: %d\r\n' % (a, b)) + inner, ('undef',)
     if kind == 'cl_list_conflict':
         return H(b'Content-Length: %d, %d\r\n' % (n, n + 2)) + inner, ('undef',)
+    if kind in ('cl_list_dup_conflict', 'cl_field_then_list', 'cl_list_conflict_dup'):
+        a = rng.choice([0, 5, max(0, n // 2)])
+        if a == n:
+            a = n + 4
+        if kind == 'cl_list_dup_conflict':      # a harmless duplicate first, the conflicting member after it
+            return H(b'Content-Length: %d, %d, %d\r\n' % (a, a, n)) + inner, ('undef',)
+        if kind == 'cl_field_then_list':
+            return H(b'Content-Length: %d\r\nContent-Length: %d, %d\r\n' % (a, a, n)) + inner, ('undef',)
+        return H(b'Content-Length: %d, %d, %d\r\n' % (a, n, a)) + inner, ('undef',)
     if kind == 'cl_signed':
         return H(b'Content-Length: ' + rng.choice([b'+%d' % n, b'-%d' % n, b'%d.0' % n, b'0x%x' % n, b'%d abc' % n]) + b'\r\n') + inner, ('undef',)
     if kind == 'cl_huge':
@@ -91,12 +100,12 @@ def build_message(rng, kind, target, inner):
     raise KeyError(kind)
 
 KINDS_OK = ['get', 'cl', 'chunked', 'te_case', 'dup_cl_equal', 'cl_list_equal', 'te_cl', 'cl_obsfold', 'te_obsfold', 'leading_crlf', 'bare_lf', 'cl_zero_with_body_like_next']
-KINDS_UNDEF = ['dup_cl_conflict', 'cl_list_conflict', 'cl_signed', 'cl_huge', 'te_unknown', 'te_space_colon', 'cl_space_colon', 'cl_barecr', 'nul_in_header', 'chunk_nocrlf', 'chunk_bad_0x', 'chunk_bad_plus', 'chunk_bad_trailing_sp', 'chunk_bad_leading_sp', 'chunk_bad_overflow', 'chunk_bad_neg', 'chunk_bad_nonhex', 'chunk_bad_trailing_tab', 'chunk_bad_bare_lf']
+KINDS_UNDEF = ['dup_cl_conflict', 'cl_list_conflict', 'cl_list_dup_conflict', 'cl_field_then_list', 'cl_list_conflict_dup', 'cl_signed', 'cl_huge', 'te_unknown', 'te_space_colon', 'cl_space_colon', 'cl_barecr', 'nul_in_header', 'chunk_nocrlf', 'chunk_bad_0x', 'chunk_bad_plus', 'chunk_bad_trailing_sp', 'chunk_bad_leading_sp', 'chunk_bad_overflow', 'chunk_bad_neg', 'chunk_bad_nonhex', 'chunk_bad_trailing_tab', 'chunk_bad_bare_lf']
 
 @register
 class C03(hc.PProp):
     id = 'C03'
-    rule = ('each run = 1-4 client connections, each carrying a pipelined stream of 1-5 messages drawn from 31 framing recipes (plain, duplicate / '
+    rule = ('each run = 1-4 client connections, each carrying a pipelined stream of 1-5 messages drawn from 34 framing recipes (plain, duplicate / '
             'conflicting / list / signed / huge Content-Length, Transfer-Encoding variants and TE+CL, obs-fold, bare CR, NUL, space before colon, bare LF, '
             'leading CRLF, chunk-size tricks); every body is itself a well-formed request for a /smuggled URL; seeded segmentation; '
             'relaxed_header_parser on/off/warn per run. The generator records the RFC 9112 6.3 delimitation of every message or that none exists. '
